@@ -47,6 +47,10 @@ pub struct Daemon {
     pub dir: PathBuf,
     pub sock: PathBuf,
     pub port: Option<u16>,
+    /// the configuration the daemon was started with (for a restart on the same directory)
+    toml: String,
+    /// a stop leaves the directory in place
+    keep_dir: bool,
     exit: Option<oneshot::Sender<()>>,
     thread: Option<std::thread::JoinHandle<Result<(), String>>>,
 }
@@ -192,6 +196,12 @@ impl Daemon {
                 t.push_str(&format!("{} = {{ permissions = [{}]{cas} }}\n", toml_str(&r.name), perms.join(", ")));
             }
         }
+        Self::launch(dir, sock, port, t)
+    }
+
+    /// Starts the daemon with the given configuration text on the given directory.
+    fn launch(dir: PathBuf, sock: PathBuf, port: Option<u16>, t: String) -> Result<Daemon, String> {
+        let _ = std::fs::remove_file(&sock);
         let mut config: krill::config::Config = toml::from_str(&t).map_err(|e| format!("toml: {e}\n{t}"))?;
         config.process().map_err(|e| format!("process: {e}"))?;
         let (run_tx, run_rx) = oneshot::channel::<()>();
@@ -219,7 +229,7 @@ impl Daemon {
                 }
             }
         }
-        let d = Daemon { dir, sock, port, exit: Some(exit_tx), thread: Some(thread) };
+        let d = Daemon { dir, sock, port, toml: t, keep_dir: false, exit: Some(exit_tx), thread: Some(thread) };
         // the "running" signal is given by the first listener; wait for the other one too
         for tr in [Transport::Unix, Transport::Tcp] {
             if tr == Transport::Tcp && port.is_none() {
@@ -298,8 +308,30 @@ impl Daemon {
                 Err(_) => return Err("daemon thread panicked".into()),
             }
         }
-        let _ = std::fs::remove_dir_all(&self.dir);
+        if !self.keep_dir {
+            let _ = std::fs::remove_dir_all(&self.dir);
+        }
         Ok(())
+    }
+
+    /// Stops the daemon and starts a new one on the same directory with the same configuration (disk storage:
+    /// the new instance finds what the old one left, the task queue included). `between` runs while no daemon
+    /// is up (e.g. to arrange the remains of a crash).
+    pub fn restart(mut self, between: impl FnOnce(&std::path::Path) -> Result<(), String>) -> Result<Daemon, String> {
+        self.keep_dir = true;
+        self.stop()?;
+        between(&self.dir)?;
+        let (dir, sock, port, toml) = (self.dir.clone(), self.sock.clone(), self.port, self.toml.clone());
+        drop(self);
+        let mut last = String::new();
+        for _ in 0..3 {
+            match Self::launch(dir.clone(), sock.clone(), port, toml.clone()) {
+                Ok(d) => return Ok(d),
+                Err(e) => last = e,
+            }
+            std::thread::sleep(Duration::from_millis(200));
+        }
+        Err(last)
     }
 }
 
